@@ -269,6 +269,23 @@ def other_relations():
 NESTED_TMPLS = [('tmpl', 2, 1, K('C', comp(1, ('V', 0)), comp(7, O))), ('tmpl', 3, 1, K('S', comp(1, ('V', 0)), comp(7, O)))]
 
 
+def late_forked_constructed_actual(pm):
+    """AUTOMATIC TAGS, and an actual parameter of a NESTED instantiation Q {...} is a constructed type written in place while
+    Q's template stands BEFORE the definition that uses it: Q's specialization is forked after the fixer has passed Q, so its
+    members are never automatically tagged (predicate of finding C11-param-late-spec-untagged)"""
+    if pm["tagging"] != 'A':
+        return False
+    pos = {it[1]: i for i, it in enumerate(pm["items"]) if it[0] == 'tmpl'}
+    for i, it in enumerate(pm["items"]):
+        if it[0] != 'def':
+            continue
+        for rf in references({"tagging": pm["tagging"], "items": [it]}):
+            for a in rf[3]:
+                if a[0] == 'P' and pos.get(a[1], len(pm["items"])) < i and any(strip_w(x)[0] in "STC" for x in a[2]):
+                    return True
+    return False
+
+
 NAMED = [(801, None, K('C', comp(1, I))), (802, None, K('C', comp(1, I), comp(2, B))), (803, None, K('C', comp(1, I), comp(2, N)))]
 
 
@@ -437,6 +454,17 @@ def run_layer(run, rng, tier, model, asn1c, skel, scratch_dir, ncpu, run_lines, 
         run.count("pm:order:" + [x for x in p if x in ORDERS][0])
         g = r.pop("grabbed", None) or {"clones": {}, "uses": {}}
         r["clones"] = g
+        f0 = dict(kv.split("=", 1) for kv in o.split())
+        if r["verdict"] == "REJECT" and r["classes"] == ["tagclash"] and f0["spec"] == "OK" and f0["wf"] == "1" and late_forked_constructed_actual(pm):
+            # the specialization of the inner template is forked after the fixer's pass over that template: no automatic tags
+            # (the single-file face of C12-param-late-spec-unfixed, reachable since nested instantiations keep their parameters)
+            fid = "C11-param-late-spec-untagged"
+            if any(fd["id"] == fid for fd in run.findings):
+                run.case(ln)
+                run.count("asn1c:REJECT")
+                run.known_finding(fid, lab)
+                run.count("known:" + fid)
+                continue
         clean, f, fam = C.judge(run, lab, m, ln, o, r, text,
                                 replay_cmd="write module_asn1 to m.asn1 in an empty directory; asn1c -S <skeletons> -fcompound-names m.asn1; echo $?; "
                                            "grep -ho 'P[0-9]*_[0-9]*P[0-9]*' *.h | sort -u   (model_line = the module after substituting every reference, in Python)")
